@@ -19,7 +19,13 @@
    Initialize / reads): [check_hcase] replays it on the code's own model ([cstep_run Stored]: the sorted
    list is stored back), [oracle_hcase] evaluates the property on the observation in the
    specification's view (every Initialize consults [sequence] of ALL loaders configured so far; per
-   path the last supplier among all documents merged so far wins). *)
+   path the last supplier among all documents merged so far wins).
+
+   A re-use case ([rcase]) applies option values / loader slices that were built ONCE to several objects
+   (Apps, Configures) or several times to one; every object is judged as a history from the VALUES.
+
+   ArgsLoaders reach this file as the argument STRINGS the real loader received ([LArgv]); typing the values
+   (strconv2.ParseAny) and splitting key from value is the model's job (ConfigMerge.parse_arg). *)
 From Coq Require Import List String ZArith Bool Arith.
 From IocVerif Require Import Model.Strconv.   (* before ConfigMerge: its is_map / ... are the ones meant below *)
 From IocVerif Require Import Model.Sorter Model.ConfigMerge.
